@@ -100,7 +100,8 @@ PROPS = {
     "C08": {
         "known_ok": ["fma-product-exponent-out-of-range"],
         "gens": [{"name": "mix", "quick": 900, "thorough": 4000}, {"name": "C08", "quick": 250, "thorough": 1500}, {"name": "C12", "quick": 1500, "thorough": 6000}, {"name": "C17", "quick": 600, "thorough": 3000},
-                 {"name": "C20", "quick": 500, "thorough": 3000}, {"name": "setters", "quick": 800, "thorough": 3000}],
+                 {"name": "C20", "quick": 500, "thorough": 3000}, {"name": "setters", "quick": 800, "thorough": 3000},
+                 {"name": "C15", "quick": 600, "thorough": 3000}],
         "nontrivial": {"inexact", "range", "alias", "special"},
         "rule": ARITH_RULE + "every variable of every program state goes through the canonical-form monitor; non-trivial = step that rounds, leaves the range, aliases or involves a special value",
         "level": "proof",
@@ -137,8 +138,10 @@ PROPS = {
     },
     "C11": {
         "extra_modules": ["C11b"],
-        "gens": [{"name": "mix", "quick": 900, "thorough": 4000}, {"name": "C11", "quick": 1500, "thorough": 8000}],
-        "nontrivial": {"shortest", "base10", "low-zero-word", "special"},
+        "gens": [{"name": "mix", "quick": 900, "thorough": 4000}, {"name": "C11", "quick": 1500, "thorough": 8000},
+                 {"name": "shared", "harness": "kernharness", "quick": 30, "thorough": 200}],
+        "needs": ["apiharness", "kernharness"],
+        "nontrivial": {"shortest", "base10", "low-zero-word", "special", "shared"},
         "rule": ARITH_RULE + "Text(x, fmt, -1) for fmt in e E f g G p b and MarshalText, checked (a) to denote exactly x and to contain exactly MinPrec digits, then (b) parsed back into a receiver of precision >= MinPrec with base 10 or 0 and compared with x by Cmp and sign; values: dyadic, low zero words, specials, extreme exponents for exponent formats",
         "lean_targets": ["Proofs.GenWordOps", "Proofs.GenTables"],
     },
